@@ -144,7 +144,7 @@ func (vc *VC) runTop() {
 	vc.assumePackageFacts(fr, env)
 	for _, p := range fn.Params {
 		for _, c := range vc.typeAssumesFor(p.Type()) {
-			t, err := fr.evalSpecBool(c.Expr, env.bind("self", fr.vals[p]))
+			t, err := fr.evalSpecAssume(c.Expr, env.bind("self", fr.vals[p]))
 			if err != nil {
 				vc.specError(fr, c, err)
 				continue
@@ -156,7 +156,7 @@ func (vc *VC) runTop() {
 	// type invariants of pointer params
 	for _, p := range fn.Params {
 		for _, c := range vc.typeInvsFor(p.Type()) {
-			t, err := fr.evalSpecBool(c.Expr, env.bind("self", fr.vals[p]))
+			t, err := fr.evalSpecAssume(c.Expr, env.bind("self", fr.vals[p]))
 			if err != nil {
 				vc.specError(fr, c, err)
 				continue
@@ -166,7 +166,7 @@ func (vc *VC) runTop() {
 	}
 	if fc != nil {
 		for _, c := range fc.Requires {
-			t, err := fr.evalSpecBool(c.Expr, env)
+			t, err := fr.evalSpecAssume(c.Expr, env)
 			if err != nil {
 				vc.specError(fr, c, err)
 				continue
@@ -298,7 +298,7 @@ func (vc *VC) assumePackageFacts(fr *Frame, env *SpecEnv) {
 		return
 	}
 	for _, c := range append(append([]*Clause{}, pc.Globals...), pc.Axioms...) {
-		t, err := fr.evalSpecBool(c.Expr, env)
+		t, err := fr.evalSpecAssume(c.Expr, env)
 		if err != nil {
 			vc.specError(fr, c, err)
 			continue
@@ -526,7 +526,7 @@ func (fr *Frame) contractCall(fc *FuncContract, callee *ssa.Function, args []*Va
 		}
 	}
 	for _, c := range fc.Ensures {
-		t, err := fr.evalSpecBool(c.Expr, penv)
+		t, err := fr.evalSpecAssume(c.Expr, penv)
 		if err != nil {
 			vc.specError(fr, c, err)
 			continue
@@ -535,7 +535,7 @@ func (fr *Frame) contractCall(fc *FuncContract, callee *ssa.Function, args []*Va
 	}
 	if callee != nil && fn0Recv(callee) {
 		for _, c := range vc.typeInvsFor(callee.Params[0].Type()) {
-			t, err := fr.evalSpecBool(c.Expr, penv.bind("self", args[0]))
+			t, err := fr.evalSpecAssume(c.Expr, penv.bind("self", args[0]))
 			if err == nil {
 				vc.assume(fr.reach, t)
 			}
